@@ -5,21 +5,21 @@ const bmcNote = "Bounded model checking by my own SSA->SMT executor: trusted bas
 // Metas: manifest texts per claimed property.
 var Metas = map[string]Meta{
 	"C06": {
-		Text:      "Every path of the real MakeRef (and, as they are added, the registry operations) is executed symbolically over a symbolic 64-bit counter and the solver shows that two references minted d calls apart differ for every c0 < 2^62 and 1 <= d < 2^62. A bit-vector query over 2^124 input pairs is the right level: the defect class (dropped counter bits) is invisible to any feasible number of test calls.",
+		Text:      "(1) Every path of the real MakeRef is executed symbolically over a symbolic 64-bit counter and the solver shows that two references minted d calls apart differ for every c0 < 2^62 and 1 <= d < 2^62 (2^124 input pairs: the defect class - dropped counter bits - is invisible to any feasible number of test calls). (2) Symbolic histories of RegisterName/UnregisterName/CreateAlias/DeleteAlias/RegisterEvent/UnregisterEvent/Link/Monitor by one process, then the real unregisterProcess: nothing resolves to it, identities reusable, no relation left as target or requester; two processes claiming one name and one event in a symbolic order: exactly one holder. (3) Concurrency mode: RegisterName racing with the process's termination, process and name tables shared: once the process is gone its name resolves to nothing, for every interleaving. Four defects found here are fixed.",
 		Note:      bmcNote,
-		Technique: "symbolic execution of go/ssa + SMT (QF_BV) query per assertion; native replay of models",
+		Technique: "symbolic execution of go/ssa + SMT (QF_BV) query per assertion; histories; thread-modular unfolding + partial-order encoding for the race; native replay / schedule replay",
 		Design:    "DESIGN.md §4 C06",
 	},
 	"C01": {
-		Text:      "Concurrency mode: the real RouteSendPID (table lookup, isAlive, lock-free Push, run), node.Kill and the runner goroutine of process.run (with its CAS protocol on the state word and the re-check of the four queues) are unfolded thread by thread into events on shared cells; one SMT query with integer clocks, read-from and atomicity constraints decides whether ANY interleaving lets two callbacks of the process overlap, handles a message twice, runs the terminate callback twice or runs anything after it. Bounds that complete: 1 sender with 0, 1 or 2 concurrent Kills, one activation per runner goroutine (an unwinding query shows no interleaving needs more). The defect it found (second Kill of a busy process) is fixed and has a native reproducer.",
-		Note:      bmcNote + " Sequential consistency; unregisterProcess is replaced by a counting stub in this entry (its own behaviour: C04/C06); a satisfiable query yields a schedule that is NOT replayed natively and is therefore reported as inconclusive, not as a violation. Two or more senders and meta-processes did not complete within the time budget and are outside the claim.",
+		Text:      "Concurrency mode: the real RouteSendPID (table lookup, isAlive, lock-free Push, run), node.Kill and the runner goroutine of process.run (with its CAS protocol on the state word and the re-check of the four queues) are unfolded thread by thread into events on shared cells; SMT queries with integer clocks, read-from and atomicity constraints decide whether ANY interleaving lets two callbacks of the process overlap, handles a message twice, runs the terminate callback twice or runs anything after it. Bounds that complete: 1 sender with 0, 1 or 2 concurrent Kills, and a handler parked in the real waitResponse (state WaitResponse) while Kill races; one activation per runner goroutine (an unwinding query shows no interleaving needs more). A satisfiable query is a schedule, which is re-run on the interpreted real code (a gate before every shared access) and reported as VIOLATION only if that run fails the same assertion. The defect it found (second Kill of a busy process) is fixed and has a native reproducer.",
+		Note:      bmcNote + " Sequential consistency; unregisterProcess is replaced by a counting stub in these entries (its own behaviour: C04/C06); schedules are confirmed on the interpreted real code, not on the native build. Two or more senders, two activations of one runner and meta-processes did not complete within the time budget and are outside the claim.",
 		Technique: "thread-modular symbolic unfolding of go/ssa + partial-order SMT encoding of interleavings (integer clocks, read-from), unwinding check",
 		Design:    "DESIGN.md §2.6, §4 C01 and the status section",
 	},
 	"C02": {
-		Text:      "The real RouteSendPID/RouteSendProcessID/RouteSendAlias run symbolically against a target process whose state (sleeping, running, terminated, unknown), mailbox bound (unbounded, 1, 2), fill level and fallback configuration (enabled, name = own/other/missing, fallback mailbox full or not) are all symbolic, with a fully symbolic priority value: success is reported exactly when the message sits in exactly one real queue (the one its priority selects, or the fallback's, wrapped with the original recipient and tag), an error means it sits nowhere and names the true cause. (Exactly-once handling and absence of lost wake-ups under concurrent senders and the runner are the subject of the concurrency entries when present in the evidence.)",
-		Note:      bmcNote + " Over-admission of a bounded mailbox by concurrent producers and a receiver that terminates meanwhile are outside the statement.",
-		Technique: "symbolic execution of go/ssa + SMT; native replay",
+		Text:      "Three parts. (1) The real RouteSendPID/RouteSendProcessID/RouteSendAlias run symbolically against a target process whose state (sleeping, running, terminated, unknown), mailbox bound (unbounded, 1, 2), fill level and fallback configuration are all symbolic, with a fully symbolic priority value: success is reported exactly when the message sits in exactly one real queue (the one its priority selects, or the fallback's, wrapped with the original recipient and tag), an error means it sits nowhere and names the true cause. (2) Concurrency mode: one sender at Normal/High/Max priority against the runner goroutine, all interleavings: a send that reported success to a process that stays alive is handled exactly once. (3) The send-versus-falling-asleep window taken sequentially: a message lands (real RouteSendPID at a symbolic priority, or a log message) after the behaviour's last look at its queues and before the real runner's Running->Sleep transition; the runner's re-check must find it in whichever queue it is - handled without further traffic, process asleep with empty queues.",
+		Note:      bmcNote + " The arbitrary-interleaving form of the lost-wake-up clause with two or more messages in flight did not complete in concurrency mode (no answer in 15 min) and is outside the claim; part (3) covers the window in its sequential form only. Over-admission of a bounded mailbox by concurrent producers is outside the statement.",
+		Technique: "symbolic execution of go/ssa + SMT; thread-modular unfolding + partial-order SMT encoding for the concurrent entries; native replay / schedule replay",
 		Design:    "DESIGN.md §4 C02",
 	},
 	"C03": {
@@ -29,9 +29,9 @@ var Metas = map[string]Meta{
 		Design:    "DESIGN.md §4 C03",
 	},
 	"C04": {
-		Text:      "Real process API (Link/Unlink/Monitor/Demonitor for pid, registered name, alias, event), real Route* functions and the real default target manager run symbolically over every history of <=4 requests by two consumers, followed by every way the target can go away (process termination via the real unregisterProcess, UnregisterName, DeleteAlias, UnregisterEvent); the consumers' real mailboxes are then inspected: exactly one exit/down per relation held, with the reason, nothing otherwise, and no relation left behind.",
-		Note:      bmcNote + " Sequential histories only in this entry; the request-vs-termination race is the subject of the concurrency entries when present in the evidence.",
-		Technique: "symbolic execution of go/ssa over symbolic operation histories + SMT; native replay",
+		Text:      "Sequential: real process API (Link/Unlink/Monitor/Demonitor for pid, registered name, alias, event), real Route* functions and the real default target manager run symbolically over every history of <=4 requests by two consumers, followed by every way the target can go away (process termination via the real unregisterProcess, UnregisterName, DeleteAlias, UnregisterEvent); the consumers' real mailboxes are then inspected: exactly one exit/down per relation held, with the reason, nothing otherwise, and no relation left behind. Concurrent: LinkPID / MonitorPID racing with the target's unregisterProcess, the process table (sync.Map) and the relation tables (behind the manager's RWMutex) shared through guarded-state cells; one SMT query over all interleavings: a request that succeeded is notified exactly once, one that failed never. The race defect this found is fixed.",
+		Note:      bmcNote + " The concurrent entries cover requests by pid (one requester, one terminating target); name/alias/event requests use the same repaired code pattern but are only covered sequentially. Schedules are confirmed on the interpreted real code.",
+		Technique: "symbolic execution of go/ssa over symbolic operation histories + SMT; thread-modular unfolding with lock-guarded state cells + partial-order SMT encoding; native replay / schedule replay",
 		Design:    "DESIGN.md §4 C04",
 	},
 	"C05": {
@@ -47,8 +47,8 @@ var Metas = map[string]Meta{
 		Design:    "DESIGN.md §4 C10",
 	},
 	"C20": {
-		Text:      "For specs of a bounded crontab grammar (every item form per field; parsed by the real cronParseSpec inside the executor) the real cronSpecMask.IsRunAt is executed on top of the real time.Time calendar arithmetic at a symbolic instant between 2000 and 2100 (UTC and two fixed-offset zones) and compared with a branch-free reference over civil fields. Minute and hour fields use z3; month, day-of-month and day-of-week need the 64-bit division chains of time.absDate and are decided by cvc5 with int-blasting (one process per query). Quick: every minute/hour form, plain numbers and ranges for the date fields; thorough adds lists, steps, L, dL, d#n and the day-of-month OR day-of-week rule as far as the time budget allows (the evidence lists what completed).",
-		Note:      bmcNote + " Time zones with DST transitions, the one-minute timer loop and the Schedule/JobSchedule API are outside unless listed in the evidence; the reference uses the time package for the civil fields.",
+		Text:      "Matcher: for specs of a bounded crontab grammar (every item form per field, incl. steps, L, dL, d#n; parsed by the real cronParseSpec inside the executor) the real cronSpecMask.IsRunAt runs on top of the real time.Time methods at a symbolic instant and is compared with a branch-free reference over civil fields. Minute/hour fields: any instant 2000..2100 in UTC and two fixed-offset zones. Hour and date fields: the civil month of the job's zone is enumerated (quick 48 months 2023-26; thorough 100 incl. 2000-02, 2100-02, 2038-01, 1999-12), the instant inside it is symbolic; zones UTC and Europe/Berlin (daylight saving, zone data embedded and parsed by the real time.LoadLocationFromTZData), thorough adds +05:30 and -08:00, lists of two and the day OR weekday rule. Scheduler: the spool for the coming minute after a symbolic history of AddJob/EnableJob/DisableJob/RemoveJob (queued exactly once iff present, enabled and matching), and one tick of the real timer callback under a clock that stands still, creeps or jumps a minute between any two of its reads (timer re-armed, at most one run per job, none when disabled). Four defects found here are fixed.",
+		Note:      bmcNote + " time.absDate is answered by a month-table summary when the path condition confines its argument to <=5 months (engine/timesum.go; validated by a unit test against the time package and by the native witness replay); solver: z3 with a 400 ms budget per query, then cvc5 int-blasting. Native replay of the tick entry builds node/cron.go with its clock and timer calls redirected by source instrumentation. Schedule/JobSchedule (loops over the same matcher) and zones with daylight saving other than Europe/Berlin are outside; the reference uses the time package for the civil fields.",
 		Technique: "symbolic execution of go/ssa (incl. stdlib time) + SMT: QF_BV with z3, int-blasted BV with cvc5; differential against a reference; native replay",
 		Design:    "DESIGN.md §4 C20",
 	},
@@ -65,8 +65,8 @@ var Metas = map[string]Meta{
 		Design:    "DESIGN.md §4 C12",
 	},
 	"C16": {
-		Text:      "Untrusted input is a symbolic byte string with a symbolic small length: it is fed to the real serve/read/handleRecvQueue (frame parser; with and without a well-formed magic/version prefix so every message-type branch is reached) and to the real edf.Decode (plus a targeted family starting with an array type descriptor). The executor reports any panic that escapes a goroutine (node crash), any deadlock, and the largest single allocation; assertions: deliveries <= frames, allocation in proportion to the input, decoded values re-encode to bytes that decode equal. One recorded finding (array descriptor length) is excluded by its exact predicate and reproduced natively on every run.",
-		Note:      bmcNote + " Bounded: <=20 input bytes for frames, <=7 for free-form EDF, <=11 for the array family; stdlib decompressors and the handshake reader are outside unless listed in the evidence.",
+		Text:      "Untrusted input is a symbolic byte string with a symbolic small length: it is fed to the real serve/read/handleRecvQueue (frame parser; with and without a well-formed magic/version prefix so every message-type branch is reached), to the real edf.Decode (plus a targeted family starting with an array type descriptor), to the decompression path with declared sizes from a boundary set, and to the real handshake readMessage in up to three arbitrary pieces followed by a silent peer. The executor reports any panic that escapes a goroutine (node crash), any deadlock, any path that exceeds a declared step bound (spinning; confirmed natively by a 60 s time-out) and the largest single allocation; assertions: deliveries <= frames, reads <= pieces+1 and never without a deadline, allocation in proportion to the input, decoded values re-encode to bytes that decode equal. Two recorded findings (array descriptor length, declared unpacked size) are excluded by their exact predicates and reproduced on every run.",
+		Note:      bmcNote + " Bounded: <=20 input bytes for frames, <=7 for free-form EDF, <=11 for the array family, <=12 for the handshake reader.",
 		Technique: "symbolic execution of go/ssa over symbolic input buffers with an allocation monitor + SMT (QF_BV); native replay",
 		Design:    "DESIGN.md §4 C16",
 	},
@@ -83,8 +83,8 @@ var Metas = map[string]Meta{
 		Design:    "DESIGN.md §4 C14",
 	},
 	"C15": {
-		Text:      "Access-control decisions are executed symbolically: every history of <=4 Enable/Disable calls with symbolic node lists on the remote-spawn and remote-application-start tables followed by the permission query for every (name, peer) - allowed must be justified by an Enable not revoked for that peer; and the effective cookie, size limit and flags of an acceptor from the real startAcceptor. (Flag/exposure gates in net/proto and the handshake digest logic are added by further entries when present in the evidence.)",
-		Note:      bmcNote + " The listener is a stub; SHA-256, TLS and the registrar are outside.",
+		Text:      "Access-control decisions are executed symbolically: every history of <=4 Enable/Disable calls with symbolic node lists on the remote-spawn and remote-application-start tables followed by the permission query for every (name, peer) - allowed must be justified by an Enable not revoked for that peer; the effective cookie, size limit and flags of an acceptor from the real startAcceptor; and the flag gates: a decoded remote spawn / application-start request into the real routeMessage under symbolic node flags is handed to the core iff this node's flag for exactly that kind of request allows it and is attributed to the connected peer, and a request the peer's announced flags forbid is refused locally (RemoteSpawn, ApplicationStart*).",
+		Note:      bmcNote + " The listener is a stub; handshake digests, SHA-256, TLS, env exposure and the registrar are outside.",
 		Technique: "symbolic execution of go/ssa over symbolic configuration histories + SMT; native replay",
 		Design:    "DESIGN.md §4 C15",
 	},
@@ -119,7 +119,7 @@ var Metas = map[string]Meta{
 		Design:    "DESIGN.md §4 C08",
 	},
 	"C09": {
-		Text:      "supCheckRestartIntensity is executed symbolically over k consecutive failures with a symbolic clock (time.Now is a solver variable) and symbolic Intensity/Period, differentially against the windowed-count definition in the property; the same limit is then checked through the real supervisor for one/all/rest-for-one. The solver covers every timing within the bound (k<=6 failures, Intensity<=4, Period<=3 s; edge instants within 50 ms of the window boundary are excluded because the statement leaves the boundary open).",
+		Text:      "supCheckRestartIntensity is executed symbolically over k consecutive failures with a symbolic clock (time.Now is a solver variable) and symbolic Intensity/Period, differentially against the windowed-count definition in the property; the same limit is then checked through the real supervisor for one/all/rest-for-one. The solver covers every timing within the bound: k<=6 failures, Intensity<=4, Period over the whole uint16 range (1..3 s with clock steps on both sides of the window; larger periods, incl. 66, 4000 and 65535 s through the supervisor, with every failure inside the window); edge instants within 50 ms of the window boundary are excluded because the statement leaves the boundary open.",
 		Note:      bmcNote + " Native replay realises the symbolic clock by sleeping.",
 		Technique: "symbolic execution of go/ssa with a symbolic clock + SMT (QF_BV); differential against a reference model; native replay",
 		Design:    "DESIGN.md §4 C09",
